@@ -33,7 +33,9 @@ func init() {
 			ruleC10O14(r)
 			ruleC10O15(r)
 			ruleC10O16(r)
+			ruleC10O17(r)
 			le10 := newLockEngine(r.P)
+			ruleC10O18(r, le10)
 			ruleW4(r, le10, "O13")
 			ruleLockPairingFor(r, le10, "O12", "no lock outlives its function in the connection layer: every function of iscp.Conn that takes a lock releases it on every path (a leaked table mutex makes calls after Close block instead of failing)", func(fn *ssa.Function) bool {
 				return fnPkgPath(fn) == modPath+"/iscp" && recvTypeName(topFunc(fn)) == "Conn" && (le10.Info(fn).Events > 0 || len(le10.Info(fn).Reports) > 0)
@@ -421,6 +423,23 @@ func ruleC10O3(r *Run) {
 	}
 	name := fnName(cl)
 	sd := findCalls(cl, false, "/wire.ClientConn.SendDisconnect")
+	sdAt := ssa.Instruction(nil) // where the Disconnect happens as seen from close: the call itself, or the call of the helper
+	if len(sd) == 0 {
+		// the critical section may be a helper of its own (disconnectWithoutLock): the path rule is then about it
+		allInstrs(cl, func(ins ssa.Instruction) {
+			c, ok := ins.(*ssa.Call)
+			if !ok || len(sd) > 0 {
+				return
+			}
+			if h := c.Call.StaticCallee(); h != nil && p.Analysed(h) && h.Pkg == cl.Pkg && recvTypeName(h) == "Conn" && (h.Object() == nil || !h.Object().Exported()) {
+				if x := findCalls(h, false, "/wire.ClientConn.SendDisconnect"); len(x) > 0 {
+					sd, sdAt = x, ins
+				}
+			}
+		})
+	} else {
+		sdAt = sd[0]
+	}
 	if len(sd) == 0 {
 		r.Check(name+" sends Disconnect", false, p.pos(cl.Pos()), name, "close does not send a Disconnect message")
 		return
@@ -437,7 +456,7 @@ func ruleC10O3(r *Run) {
 			}
 		}
 	})
-	r.Check(name+" publishes Closed first", swap != nil && dominatesInstr(swap, sd[0]), p.pos(cl.Pos()), name, "the status must be Closed before the Disconnect is sent")
+	r.Check(name+" publishes Closed first", swap != nil && dominatesInstr(swap, sdAt), p.pos(cl.Pos()), name, "the status must be Closed before the Disconnect is sent")
 }
 
 func ruleC10O5(r *Run) {
@@ -681,6 +700,9 @@ func ruleC10O11(r *Run) {
 		if fn.Signature.Recv() != nil && namedOf(fn.Signature.Recv().Type()) == holder {
 			continue // the helpers themselves
 		}
+		if fn.Synthetic != "" {
+			continue // bound-method and interface wrappers: judged where the method value is used
+		}
 		k := 0
 		allInstrs(fn, func(ins ssa.Instruction) {
 			c, isCall := ins.(*ssa.Call)
@@ -735,6 +757,18 @@ func (p *Prog) reachesStoreTo(fn *ssa.Function, f *types.Var, depth int) bool {
 			if c, ok := ins.(*ssa.Call); ok && depth > 0 && !found {
 				if cf := c.Call.StaticCallee(); cf != nil && p.Analysed(cf) && p.reachesStoreTo(cf, f, depth-1) {
 					found = true
+				}
+				// a method value of the field's owner handed on as an argument may be the one that stores
+				for _, a := range c.Call.Args {
+					if mc, isMC := a.(*ssa.MakeClosure); isMC {
+						if bf, isF := mc.Fn.(*ssa.Function); isF && strings.HasSuffix(bf.Name(), "$bound") {
+							for _, m := range p.Funcs {
+								if m.Object() != nil && m.Object() == bf.Object() && p.reachesStoreTo(m, f, depth-1) {
+									found = true
+								}
+							}
+						}
+					}
 				}
 			}
 		})
@@ -988,4 +1022,130 @@ func ruleC10O16(r *Run) {
 	if n == 0 {
 		r.Undecided("waits that give up on Closed", "no method of connStatus both returns ErrConnectionClosed and waits")
 	}
+}
+
+// ruleC10O17: a method that refuses a closed stream or connection (it has a branch returning ErrStreamClosed or
+// ErrConnectionClosed decided by a test at its top) refuses it for every input: no return of a nil error is reachable
+// without passing the first such test. A fast path placed in front of the test ("nothing to do for an empty write")
+// makes the call succeed silently after Close.
+func ruleC10O17(r *Run) {
+	r.Begin("O17", "closed is refused for every input: in each exported method of Upstream, Downstream and Conn whose entry leads to a test that returns ErrStreamClosed/ErrConnectionClosed, every return of a nil error is dominated by the first such test", 3)
+	p := r.P
+	for _, fn := range p.Funcs {
+		if fnPkgPath(fn) != modPath+"/iscp" || fn.Parent() != nil || fn.Blocks == nil || fn.Object() == nil || !fn.Object().Exported() {
+			continue
+		}
+		switch recvTypeName(fn) {
+		case "Upstream", "Downstream", "Conn":
+		default:
+			continue
+		}
+		res := fn.Signature.Results()
+		if res.Len() == 0 || res.At(res.Len()-1).Type().String() != "error" {
+			continue
+		}
+		// the first closed-test: an If one of whose edges returns the sentinel, that dominates every other such If
+		var tests []*ssa.If
+		allInstrs(fn, func(ins ssa.Instruction) {
+			ifs, ok := ins.(*ssa.If)
+			if !ok {
+				return
+			}
+			for _, s := range ifs.Block().Succs {
+				if nm, isS := returnsSentinel(s); isS && (nm == "ErrStreamClosed" || nm == "ErrConnectionClosed") {
+					tests = append(tests, ifs)
+				}
+			}
+		})
+		var first *ssa.If
+		for _, t := range tests {
+			dom := true
+			for _, u := range tests {
+				if u != t && !t.Block().Dominates(u.Block()) {
+					dom = false
+				}
+			}
+			if dom {
+				first = t
+			}
+		}
+		if first == nil {
+			continue
+		}
+		// (a Closed test behind a select or a wait explains why the wait ended; it is not an entry test)
+		blocking := func(x ssa.Instruction) bool {
+			switch y := x.(type) {
+			case *ssa.Select, *ssa.Send:
+				return true
+			case *ssa.UnOp:
+				return y.Op == token.ARROW
+			}
+			return isCallNamed(x, "/iscp.connStatus.WaitUntil", "/iscp.connStatus.WaitUntilOrClosed", "/iscp.streamState.WaitUntil", "sync.Cond.Wait")
+		}
+		if reachesFromEntryWithout(fn, func(x ssa.Instruction) bool { return x == ssa.Instruction(first) }, blocking) == nil {
+			continue
+		}
+		// only tests made before anything else happens count as "the method refuses when closed": the test block is
+		// reached from the entry without a call that blocks or sends
+		name := fnName(fn)
+		k := 0
+		for _, ret := range returnsOf(fn) {
+			if ret.Block() == fn.Recover {
+				continue
+			}
+			rs := retResults(ret)
+			if len(rs) == 0 || !isNilConst(rs[len(rs)-1]) {
+				continue
+			}
+			k++
+			r.Check(fmt.Sprintf("%s success#%d after the closed test", name, k), first.Block().Dominates(ret.Block()), posOf(p, ret), name, "this return reports success without the closed test at "+posOf(p, first)+" having been made: after Close the call succeeds silently for the inputs that take this path")
+		}
+	}
+}
+
+// ruleC10O18: Close must not return while a redial is still in flight — the dial would open a transport and exchange
+// the connect request after Close has returned. The redial (retry.Do / connectWire in reconnect) runs with some mutex
+// held, and the connection's close path acquires that very mutex.
+func ruleC10O18(r *Run, le *LockEngine) {
+	r.Begin("O18", "Close waits out a redial in flight: a mutex held by (*Conn).reconnect across the dial is acquired by (*Conn).close (or a function it calls)", 1)
+	p := r.P
+	rec := r.method("/iscp", "Conn", "reconnect")
+	cl := r.method("/iscp", "Conn", "close")
+	if rec == nil || cl == nil {
+		return
+	}
+	dialNames := []string{"/internal/retry.Do", "/internal/retry.Retry.Do", "/iscp.ConnConfig.connectWire", "/wire.Connect"}
+	held := map[string]bool{}
+	found := false
+	for _, d := range p.callsReaching(rec, 2, dialNames...) {
+		found = true
+		for k := range le.HeldAt(d) {
+			held[k] = true
+		}
+	}
+	if !found {
+		r.Undecided(fnName(rec)+" dial", "no dial call found in reconnect")
+		return
+	}
+	taken := map[string]bool{}
+	p.withHelpers(cl, 2, func(g *ssa.Function) {
+		allInstrs(g, func(ins ssa.Instruction) {
+			cc := instrCall(ins)
+			if cc == nil {
+				return
+			}
+			if op, recv := classifyLockCall(cc); op == opLock || op == opRLock {
+				if pa := pathOf(recv); pa != nil {
+					taken[pa.String()] = true
+				}
+			}
+		})
+	})
+	common := ""
+	for k := range held {
+		if taken[k] {
+			common = k
+		}
+	}
+	r.Check(fnName(cl)+" waits for the redial", common != "", p.pos(cl.Pos()), fnName(cl), fmt.Sprintf("locks held across the dial in reconnect: %v; locks the close path acquires: %v — with none in common Close returns while the dial is still in flight", keysOf(held), keysOf(taken)))
 }
